@@ -99,6 +99,15 @@ pub fn run(out: &mut Out, thorough: bool) {
                 let zt: ZKPoK<CL03<CS>> = from_jv(&t);
                 out.check(&format!("{}/transplant/{}", tag, part), "verify_proof", vec![format!("{} taken from a proof about other attributes / another commitment", part)], false, &["transplant"], || zt.verify_proof(cc, None, pk, &bases, None, &u));
             }
+            // whole blocks (proof of value + its range proof) of the other proof: nothing links them to C
+            for (name, parts) in [("per-attribute-block", vec!["proofs_commited_mi", "range_proofs_mi"]), ("r-block", vec!["proof_r", "range_proof_r"])] {
+                let mut t = jz.clone();
+                for part in parts {
+                    set(&mut t, &format!("/CL03/{}", part), at(&jo, &format!("/CL03/{}", part)).clone());
+                }
+                let zt: ZKPoK<CL03<CS>> = from_jv(&t);
+                out.check(&format!("{}/transplant/{}", tag, name), "verify_proof", vec![format!("{} (proof of value together with its range proof) taken from a proof about other attributes / another commitment", name)], false, &["transplant", "unlinked"], || zt.verify_proof(cc, None, pk, &bases, None, &u));
+            }
             }
             // field-wise edits of the ZKPoK (+1 on every integer leaf; quick: a sample)
             let mut paths = Vec::new();
